@@ -1285,7 +1285,7 @@ func c06Workload(c *Ctx) []c06Attack {
 		out = append(out, c06CrossProduct(c.Rand(fmt.Sprintf("cross-%d", rep)), pool)...)
 	}
 	r := c.Rand("attacks")
-	total := c.Pick(20000, 200000)
+	total := c.Pick(20000, 1500000)
 	for n := 0; n < total; {
 		size := 20 + r.Intn(c.Pick(81, 181))
 		if size > total-n {
